@@ -95,6 +95,8 @@ class C18(Monitor):
                 return C.ENHANCE_YOUR_CALM, 'header list larger than MAX_HEADER_LIST_SIZE'
             if (f.type == C.HEADERS and pre is not None and pre.state == 'closed' and pre.closed_by == 'end'
                     and not f.hpack_error and f.headers is not None
+                    and not (s.tainted and trk.table_size_changed)      # (the decoder may be owed a table-size update)
+                    and not (s.exc.get('where') or '').endswith('_decode_headers')
                     and not maybe_forgotten(trk, pre, self.knob)):
                 # RFC 7540 5.1: HEADERS on a stream both sides have finished is a connection error STREAM_CLOSED
                 return C.STREAM_CLOSED, 'HEADERS on a stream closed by END_STREAM'
